@@ -3,6 +3,7 @@ package main
 // C20: proofs are freshly blinded and committed values are masked.
 
 import (
+	"reflect"
 	"bytes"
 	"fmt"
 	"math/big"
@@ -31,6 +32,11 @@ type c20Desc struct {
 	Circuit string `json:"circuit"`
 	Curve   string `json:"curve"`
 	What    string `json:"what"`
+}
+
+// pointIsInfinityStr: textual form of a point with both coordinates zero
+func pointIsInfinityStr(s string) bool {
+	return strings.Trim(s, "{}[] 0") == ""
 }
 
 func ptKey(p interface{ Marshal() []byte }) string { return fmt.Sprintf("%x", p.Marshal()) }
@@ -270,11 +276,16 @@ func runC20(args []string) int {
 	}
 	for _, id := range curves {
 		q := id.ScalarField()
-		for si, sp := range g16Specs()[:4] {
+		bbSpecs := g16Specs()[:4]
+		if o.AllCurves() {
+			bbSpecs = g16Specs() // every circuit shape on every curve
+		}
+		for si, sp := range bbSpecs {
 			full, _ := frontend.NewWitness(sp.asg(si), q)
 			for _, be := range []string{"groth16", "plonk"} {
 				desc := c20Desc{be, sp.name, id.String(), ""}
 				var encs []string
+				var objs []interface{}
 				if be == "groth16" {
 					ccs, err := frontend.Compile(q, r1cs.NewBuilder[constraint.U64], sp.mk())
 					if err != nil {
@@ -290,6 +301,7 @@ func runC20(args []string) int {
 						var b bytes.Buffer
 						p.WriteRawTo(&b)
 						encs = append(encs, fmt.Sprintf("%x", b.Bytes()))
+						objs = append(objs, p)
 					}
 				} else {
 					ccs, err := frontend.Compile(q, scs.NewBuilder[constraint.U64], sp.mk())
@@ -307,6 +319,35 @@ func runC20(args []string) int {
 						var b bytes.Buffer
 						p.WriteRawTo(&b)
 						encs = append(encs, fmt.Sprintf("%x", b.Bytes()))
+						objs = append(objs, p)
+					}
+				}
+				// element by element: no group element of the proof (wire / quotient commitments, Ar, Bs, Krs, every commitment) may
+				// repeat between two proofs of the same witness (PLONK's quotient shards and opening proofs are deterministic
+				// functions of the rest and are exempt)
+				if len(objs) == 2 {
+					var pa, pb []string
+					var names []string
+					walkPoints(reflect.ValueOf(objs[0]), "proof", func(path string, ptr interface{}) {
+						names = append(names, path)
+						pa = append(pa, fmt.Sprintf("%v", reflect.ValueOf(ptr).Elem().Interface()))
+					})
+					walkPoints(reflect.ValueOf(objs[1]), "proof", func(path string, ptr interface{}) {
+						pb = append(pb, fmt.Sprintf("%v", reflect.ValueOf(ptr).Elem().Interface()))
+					})
+					for i := range names {
+						if i >= len(pb) || strings.Contains(names[i], ".H") || strings.Contains(names[i], "CommitmentPok") || pointIsInfinityStr(pa[i]) {
+							continue
+						}
+						if pa[i] == pb[i] {
+							d := desc
+							d.What = names[i] + " repeated"
+							sig := "c20:blackbox:element-repeated:" + be
+							if strings.Contains(names[i], "ommitments") {
+								sig = "c20:blackbox:commitment-unmasked:" + be
+							}
+							rep.Fail(sig, fmt.Sprintf("%s %s: two proofs of the same witness share %s", be, id, names[i]), d)
+						}
 					}
 				}
 				rep.Eval(fmt.Sprintf("%s|%s|%s", id, be, sp.name), true)
